@@ -50,18 +50,19 @@ def api_init_graph(res, rng, metric, kind):
     n = int(rng.choice([12, 60, 150])); k = int(rng.choice([3, 6, 10])); dim = 4
     X, L = api.gen_dataset(rng, metric, kind, n, dim)
     kw = api.metric_kwds(metric, rng, dim)
-    G = rng.integers(0, n, size=(n, k)).astype(np.int32); G[rng.random((n, k)) < 0.35] = -1
+    wd = k + int(rng.choice([0, 0, 4]))                 # callers may supply more candidate columns than n_neighbors, in any order
+    G = rng.integers(0, n, size=(n, wd)).astype(np.int32); G[rng.random((n, wd)) < 0.35] = -1
     with_dist = bool(rng.integers(2)) and not kind.startswith("csr")
-    ref = np.full((n, k), INF)
+    ref = np.full((n, wd), INF)
     for i in range(n):
-        for j in range(k):
+        for j in range(wd):
             if G[i, j] >= 0:
                 v = oracles._ref(metric, L[i].astype(np.float64), L[G[i, j]].astype(np.float64), kw)
                 ref[i, j] = 0.0 if v is None else v
     extra = {"init_graph": G}
     if with_dist:
         extra["init_dist"] = np.where(np.isinf(ref), 0.0, ref).astype(np.float32)
-    case = {"metric": metric, "kind": kind, "n": n, "k": k, "with_dist": with_dist, "kwds": kw}
+    case = {"metric": metric, "kind": kind, "n": n, "k": k, "width": wd, "with_dist": with_dist, "kwds": kw}
     idx = NNDescent(X, metric=metric, metric_kwds=kw, n_neighbors=k, random_state=int(rng.integers(10 ** 6)),
                     n_iters=int(rng.choice([0, 1, 5])), **extra)
     inds, dists = idx.neighbor_graph
@@ -70,7 +71,7 @@ def api_init_graph(res, rng, metric, kind):
     res.count("api_init_graph"); res.traces += 1
     for i in range(n):
         seen = {}
-        for j in range(k):
+        for j in range(wd):
             if G[i, j] >= 0:
                 seen[int(G[i, j])] = ref[i, j]
         before = sorted(seen.values())[:k]
